@@ -2654,3 +2654,7 @@ mod tests {
         Scalar,
     }
 }
+
+#[cfg(kani)]
+#[path = "/verif/kani/arrow-string/like.rs"]
+mod verif_kani;
